@@ -602,7 +602,17 @@ func Reader(data any, selectors []any) (any, error) {
 						switch selector.GetType() {
 						case NONE:
 							{
-								copy[selector.GetKey()] = data[selector.GetKey()]
+								value := data[selector.GetKey()]
+								// a CTE of the scope that has not been read yet:
+								// its value is its rows, never the thunk
+								if cte, ok := value.(CteEvaluation); ok {
+									rows, err := cte()
+									if err != nil {
+										return nil, err
+									}
+									value = rows
+								}
+								copy[selector.GetKey()] = value
 							}
 						case STRING:
 							{
